@@ -241,7 +241,7 @@ func c04Sessions(seed uint64, thorough bool) []c04session {
 	limit := int(MaxBufferedPayloadSz)
 	var out []c04session
 	behFor := func(n int, pick int) vbeh {
-		switch pick % 9 {
+		switch pick % 11 {
 		case 0:
 			return vbeh{k: 0}
 		case 1:
@@ -258,6 +258,10 @@ func c04Sessions(seed uint64, thorough bool) []c04session {
 			return vbeh{k: 0, panic: true}
 		case 7:
 			return vbeh{k: n / 2, panic: true}
+		case 9:
+			return vbeh{mode: 'd'}
+		case 10:
+			return vbeh{mode: 'u'}
 		}
 		return vbeh{k: n, panic: true}
 	}
@@ -296,7 +300,7 @@ func c04Sessions(seed uint64, thorough bool) []c04session {
 					// replies carry reply types (a request-typed or unsolicited-typed frame under an awaited id is C03's subject)
 					fr.typ = []int{12, 11, 13, 100}[rng.intn(4)]
 				}
-				fr.beh = behFor(n, rng.intn(9))
+				fr.beh = behFor(n, rng.intn(11))
 				ph.frames = append(ph.frames, fr)
 			}
 			s.phases = append(s.phases, ph)
@@ -333,10 +337,21 @@ func c04Sessions(seed uint64, thorough bool) []c04session {
 			ph.frames = []c04frame{fr, tail}
 			s.phases = []c04phase{ph}
 			out = append(out, s)
+			if path >= 1 && path <= 4 && n <= limit+2 {
+				// the same with a handler that takes the payload the way the device service does
+				s2 := s
+				s2.name += ":unmarshal"
+				fr2 := fr
+				fr2.beh = vbeh{mode: "du"[(bi+path)%2]}
+				ph2 := ph
+				ph2.frames = []c04frame{fr2, tail}
+				s2.phases = []c04phase{ph2}
+				out = append(out, s2)
+			}
 		}
 	}
 	// 3. every handler behaviour on one medium frame, streamed and buffered
-	for pick := 0; pick < 9; pick++ {
+	for pick := 0; pick < 11; pick++ {
 		for _, awaited := range []bool{false, true} {
 			n := 3000 + pick
 			s := c04session{name: fmt.Sprintf("beh%d:%v", pick, awaited), handlers: []int{12}}
